@@ -360,9 +360,32 @@ func runC20(c *Ctx) {
 					}
 					return false
 				}
+				// continuation flag: `for tok, more := "", true; more; more = tok != ""` — the header tests a boolean
+				// φ whose value on every back edge is the non-empty test of this iteration's next page token (and
+				// the constant true on entry): going round ⇔ token non-empty, leaving at the header ⇔ token empty
+				var flagPhi *ssa.Phi
+				if iff, ok := L.Header.Instrs[len(L.Header.Instrs)-1].(*ssa.If); ok {
+					if phi, ok := iff.Cond.(*ssa.Phi); ok && phi.Block() == L.Header && len(L.Header.Succs) == 2 && L.Body[L.Header.Succs[0]] {
+						good := true
+						for i, e := range phi.Edges {
+							pred := L.Header.Preds[i]
+							if L.Body[pred] {
+								bo, isB := e.(*ssa.BinOp)
+								if !isB || !tokCond(true)(condFact{Cond: bo, Val: true, Block: pred}) {
+									good = false
+								}
+							} else if k, isK := e.(*ssa.Const); !isK || k.Value == nil || k.Value.Kind() != constant.Bool || !constant.BoolVal(k.Value) {
+								good = false
+							}
+						}
+						if good {
+							flagPhi = phi
+						}
+					}
+				}
 				okBack := true
 				for _, back := range L.Backs {
-					edge := false
+					edge := flagPhi != nil
 					if iff, ok := back.Instrs[len(back.Instrs)-1].(*ssa.If); ok {
 						// the back edge itself may be an edge of the token test
 						for i, s := range back.Succs {
@@ -387,6 +410,9 @@ func runC20(c *Ctx) {
 					}
 					if isErrorExit(to) || isFoundExit(to) {
 						continue
+					}
+					if flagPhi != nil && from == L.Header {
+						continue // the continuation flag is false exactly when the token was empty
 					}
 					// the edge itself may be the empty-token edge: from ends in If on the token
 					edgeOK := hasCond(to, tokCond(false)) && len(to.Preds) == 1
